@@ -193,6 +193,22 @@ theorem C19_feature_free_unchanged (c : Cfg) (ops : List Op) (a b : FS)
     plainLog (runOps c ops a).log = plainLog (runOps c.plain ops b).log :=
   runOps_feature_free c ops a b hab hff
 
+/-- **Polls are queries.** `may_<event>()` / `may_trigger` polls interleaved anywhere in a flat history change
+nothing: the run is the run with the polls deleted.  In particular the outgoing-transition table that
+`Error.enter` consults (`F.cfg.hasOut`, a function of the declared transitions alone) is the same before
+and after any number of polls, so `C19_error_iff` holds for entries after polls as for entries before. -/
+theorem C19_polls_pure (F : Flat) (h : List FStep) (ms : MS) :
+    runFlat F h ms = runFlat F (h.filter (fun x => !x.isPoll)) ms :=
+  runFlat_polls F h ms
+
+/-- **The decorator keeps the machine's dynamic methods.** `CustomState.dynamic_methods` is, as a set, the
+machine's own state class's list (`base`; `on_final` of `NestedState` included) plus `on_enter`/`on_exit` —
+for every feature list: the `on_<callback>_<state>` conventions (model methods, `machine.on_<cb>_<state>(f)`)
+of the undecorated class all survive decoration, and none is invented. -/
+theorem C19_dynamic_methods_kept (feats : List Mixin) (base : List Nat) (x : Nat) :
+    x ∈ customMethods feats base ↔ (x ∈ base ∨ x = 0 ∨ x = 1) :=
+  mem_customMethods feats base x
+
 /-- **Flat engine.** A valid external transition of the flat machine is the op group
 `[exit source, enter dest]` (stopped by a MachineError), and the model ends in `dest` either way. -/
 theorem C19_flat_trigger (F : Flat) (m ev : Nat) (ms : MS) (t : Feat.Trans) (d : Nat)
